@@ -102,7 +102,7 @@ pub fn plan(id: &str) -> Option<Plan> {
             id: "C01",
             level: "exploration",
             profiles: vec![MKT, MKT_F, ADM, TX],
-            quick_runs: 1800,
+            quick_runs: 3600,
             thorough_runs: 30_000,
             rule: "seeded runs of the market profile (fault-free and fault-injecting halves); one evaluation = one (successful instruction, custodied bank) pair whose books or vault changed: dS >= -derived allowance; distinct = ix kind x utilisation decile x share-value class x magnitude decade",
         },
@@ -110,7 +110,7 @@ pub fn plan(id: &str) -> Option<Plan> {
             id: "C03",
             level: "exploration",
             profiles: vec![MKT, MKT_F],
-            quick_runs: 1200,
+            quick_runs: 3000,
             thorough_runs: 30_000,
             rule: "seeded runs of the market profile (fault-free and fault-injecting halves); one evaluation = one successful deposit/withdraw/borrow/repay judged from the user's side at post-accrual share values, plus zero-time wealth per (authority, mint); distinct = ix kind x all-flag x fractional-value class x share-value class",
         },
@@ -118,7 +118,7 @@ pub fn plan(id: &str) -> Option<Plan> {
             id: "C06",
             level: "exploration",
             profiles: vec![MKT, MKT_F],
-            quick_runs: 1200,
+            quick_runs: 3000,
             thorough_runs: 30_000,
             rule: "seeded runs of the market profile (fault-free and fault-injecting halves); one evaluation = one observed accrual (share value change) with monotonicity, fee sign, conservation and curve checks; each main-timeline handler tx with stale banks is re-executed on a fork after an explicit accrue and the resulting banks/vaults must be byte-identical; distinct = ix kind x utilisation decile x dt decade x fee class",
         },
@@ -126,7 +126,7 @@ pub fn plan(id: &str) -> Option<Plan> {
             id: "C17",
             level: "exploration",
             profiles: vec![MKT, MKT_F],
-            quick_runs: 1200,
+            quick_runs: 3000,
             thorough_runs: 30_000,
             rule: "seeded runs of the market profile (fault-free and fault-injecting halves); one evaluation = one successful deposit/borrow/withdraw that moved totals, or a capacity/utilisation rejection; boundary actor probes capacity -2..+2 on forks; distinct = ix kind x verdict x limit class x up-to-limit flag",
         },
@@ -142,7 +142,7 @@ pub fn plan(id: &str) -> Option<Plan> {
             id: "C07",
             level: "exploration",
             profiles: vec![MKT, MKT_F, ADM],
-            quick_runs: 1600,
+            quick_runs: 3200,
             thorough_runs: 40_000,
             rule: "seeded runs of the market profile (fault-free and fault-injecting halves); one evaluation = one bankruptcy settlement (accepted or rejected) judged against the reference bankruptcy spec in its three insurance regimes, plus killed-state permanence checked in every later state; distinct = regime x signer class x #depositors",
         },
@@ -158,7 +158,7 @@ pub fn plan(id: &str) -> Option<Plan> {
             id: "C11",
             level: "exploration",
             profiles: vec![TX, TX_F],
-            quick_runs: 1600,
+            quick_runs: 2400,
             thorough_runs: 40_000,
             rule: "seeded runs of the transaction-shape profile (shape faults: missing/misplaced/repeated start or end, forbidden inner instruction, foreign/failing program, CPI wrapper; fault-free and fault-injecting halves); one evaluation = one transaction containing a flash-loan start or end; distinct = transaction shape word x verdict",
         },
@@ -174,7 +174,7 @@ pub fn plan(id: &str) -> Option<Plan> {
             id: "C13",
             level: "exploration",
             profiles: vec![ADM, ADM_F],
-            quick_runs: 1600,
+            quick_runs: 3200,
             thorough_runs: 40_000,
             rule: "seeded runs of the administrator / pause profiles interleaved with market activity (operator churn; fault-free and fault-injecting halves); one evaluation = one accepted or rejected configuration request judged by an independent rational validator of the resulting bank bytes; consequence 'init-healthy implies maint-healthy at equal prices' checked with the real pulse_health on a fork whose oracles are rewritten to spot=EMA, conf=0; distinct = ix kind x verdict x emode/plain x weights-changed",
         },
@@ -182,7 +182,7 @@ pub fn plan(id: &str) -> Option<Plan> {
             id: "C14",
             level: "exploration",
             profiles: vec![ADM, ADM_F, PAUSE, PAUSE_F, INTEGADM],
-            quick_runs: 2000,
+            quick_runs: 3000,
             thorough_runs: 40_000,
             rule: "seeded runs of the administrator / pause profiles interleaved with market activity (operator churn; fault-free and fault-injecting halves); one evaluation = one financial instruction (accepted or rejected) classified into a cell of the verdict table role x bank state x verdict, or a pause-gated instruction classified by cached-pause region; distinct = cell",
         },
@@ -190,7 +190,7 @@ pub fn plan(id: &str) -> Option<Plan> {
             id: "C15",
             level: "exploration",
             profiles: vec![PAUSE, PAUSE_F],
-            quick_runs: 1600,
+            quick_runs: 3200,
             thorough_runs: 40_000,
             rule: "seeded runs of the administrator / pause profiles interleaved with market activity (operator churn; fault-free and fault-injecting halves); one evaluation = one pause/unpause instruction classified by PanicState region (flag, counters, position of now relative to start+1800 and last_reset+86400, boundaries included) x result; canary deposits executed on forks at cached expiry -1/0 and now+3600; distinct = instruction x region x result",
         },
@@ -214,7 +214,7 @@ pub fn plan(id: &str) -> Option<Plan> {
             id: "C19",
             level: "exploration",
             profiles: vec![EMI, EMI_F, MKT, ADM],
-            quick_runs: 1600,
+            quick_runs: 3200,
             thorough_runs: 40_000,
             rule: "fee/emissions profile interleaved with market activity: fee collection with buckets fractional / zero / above vault liquidity, admin and permissionless fee and insurance withdrawals, emissions set-up and top-up, settle / withdraw / permissionless withdraw with time advances; one evaluation = one judged collection, vault draw-down, settlement or payout; fee collection and bucket arithmetic are checked exactly (rationals), destinations are recomputed canonically (bank vaults, ATA of the global fee wallet, ATA of the stored emissions wallet); distinct = ix kind x bucket classes x liquidity class / settlement side x capped x dt",
         },
